@@ -30,7 +30,13 @@ def rand_literal(rng):
     text = sign + body
     if e or rng.random() < 0.2:
         text += rng.choice("eE") + rng.choice(["", "+"] if e >= 0 else [""]) + str(e)
-    # parsed pair exactly as str_to_man_exp computes it
+    if rng.random() < 0.12:
+        # PEP 515 digit grouping: float() (which validates the literal) accepts single underscores between digits
+        for _ in range(rng.randint(1, 3)):
+            spots = [i for i in range(1, len(text)) if text[i - 1].isdigit() and text[i].isdigit()]
+            if not spots: break
+            i = rng.choice(spots); text = text[:i] + "_" + text[i:]
+    # parsed pair (value man*10^exp denoted by the literal)
     fracdigits = 0 if point is None else len(digits) - point
     frac = "" if point is None else digits[point:]
     stripped = frac.rstrip("0")
@@ -50,7 +56,7 @@ def c_from_str(rng, fn):
     approx = abs(exp) > 400
     ex = ("str", value, approx)
     return Case(fn, [man, exp, prec, r2i(rnd)], lambda: call_impl(L.from_str, text, prec, rnd), ex, prec, rnd,
-                desc=("from_str", text if len(text) < 80 else text[:40] + "...(%d chars)" % len(text)))
+                desc=("from_str", text))
 
 
 GENS = {"from_str_parts": c_from_str}
